@@ -1,10 +1,40 @@
-(* C06 -- Synced writes survive power loss through rollover, compaction and recovery.  The durability
-   theorems are in PowerLoss.v and appended to this file when built; decided here: where the code
-   flushes. *)
-From Pogreb Require Import Base ShapeCheck.
+(* C06 -- Synced writes survive power loss through rollover, compaction and recovery.
+   PARTIAL in one respect: the theorems cover every history of Put / Delete / Sync / compaction pick
+   and micro-steps (with rollover, both sync modes) from a state with nothing pending, but not a
+   history that contains a recovering Open between the durable starting point and the power
+   failure; that part (an earlier recovery) is covered by the harness only (it found defect D13). *)
+From Pogreb Require Import Base Flat Spec DB DBInv DBProofsCrash PowerLoss ShapeCheck.
 
 (* a segment is flushed when it becomes full (rollover seals through sealSegment, which syncs);
    compaction flushes the current segment before it removes a source segment *)
 Theorem C06_seal_and_remove_flush : seal_syncs = true /\ compact_order_ok = true.
 Proof. split; [exact shape_seal_syncs | exact shape_compact_order]. Qed.
 Print Assumptions C06_seal_and_remove_flush.
+
+(* Power-loss model (PowerLoss.pl): directory events and Syncs are never lost; a data event of a file
+   may be dropped or (for a record write) torn, and then every later data event of that file is
+   dropped too; data followed by a Sync of its file is never dropped.
+   For every history of operations and compaction steps interleaved in any way, every point of it,
+   and every such image: if a sync point (db_sync, or Put/Delete with sync-after-every-write)
+   completed earlier, the recovering Open succeeds with the invariant, and the contents are those at
+   the sync point followed by a PREFIX of the later operations -- so every key holds its value as of
+   the last completed Sync or a value written / a deletion made after it. *)
+Theorem C06_synced_writes_survive_power_loss :
+  forall (P : params) (seed : N) (cf0 : cfg) (os0 : list xop) (cfs0 : list cfg) (tr0 : list fsev) (cfa : cfg)
+         (osync : xop) (cf1 : cfg) (os : list xop) (cfs : list cfg) (tr : list fsev) (cf' : cfg)
+         (es1 es2 : list fsev) (L' : fset) (img' : disk),
+  params_ok P -> XOpen P cf0 -> xrun P cf0 os0 cfs0 tr0 cfa -> xstep P cfa osync cf1 -> sync_point P osync ->
+  xrun P cf1 os cfs tr cf' -> tr = es1 ++ es2 ->
+  pl fnone (s_disk (fst cf0)) (tr0 ++ s_trace (fst cf1) ++ es1) L' img' ->
+  exists s2 : st,
+    db_open flat_ops P seed (closed img') = (s2, OOpened true) /\ Inv P s2 /\ s_mem s2 <> None /\
+    (exists j : nat, (j <= length os)%nat /\
+       ceq (cont (s_disk s2)) (xspec_hist (firstn j os) (cont (s_disk (fst cf1))))).
+Proof. exact C06_synced_writes_survive. Qed.
+Print Assumptions C06_synced_writes_survive_power_loss.
+
+(* sensitivity: without the flush when a segment is sealed (defect D4), or without the flush before a
+   compacted source is removed (defect D5), an admissible image loses a synced key *)
+Definition C06_seal_without_sync_refuted := seal_without_sync_refuted.
+Definition C06_remove_before_sync_refuted := remove_before_sync_refuted.
+Definition C06_nonvacuous_example := C06_nonvacuous.
